@@ -9,6 +9,7 @@ From FFS Require Import Conc.Lockset Conc.LocksetProofs Gen.FsWalletSync Conc.Fs
 From FFS Require Import Conc.Atomic Conc.AtomicProofs Conc.FsWalletAtomic.
 From FFS Require Import Wallet.Notify Wallet.NotifyProofs.
 From FFS Require Import Conc.Reduction Wallet.NotifyRefine Wallet.NotifyConform.
+From FFS Require Import Conc.PathFind Conc.Monitor Wallet.NotifyExact Conc.RefereeExamples.
 From Coq Require Import Permutation.
 Import ListNotations.
 Open Scope list_scope.
@@ -269,9 +270,9 @@ Print Assumptions C17_atomic_steps_justify_model.
       finder of Conc/PathFind.v ([covers], sound by [covers_sound]; explores both branches of every
       `if`, inlines calls, runs deferred items, matches the starred item against a loop) establishes by
       vm_compute that the translated body of each method has, for EVERY word, a complete control-flow
-      path whose projection onto mux and the three fields is that word, up to accesses the source
+      path whose projection onto mux and the three fields is that word, up to READS the source
       makes in addition ([sub_acc]: e.g. len() and copy() both read listeners; every Lock / Unlock
-      must match).  Decided by computation, so that a behaviour-preserving refactor of
+      and — since the statement review, see 9 — every WRITE must match; the converse inclusion is 9).  Decided by computation, so that a behaviour-preserving refactor of
       the source (explicit Unlock, early return before the Lock, loop moved into a helper) keeps it. *)
 Theorem C17_translated_paths_cover :
   covers_ok fswallet_prog fuel = true /\
@@ -282,8 +283,10 @@ Proof.
 Qed.
 Print Assumptions C17_translated_paths_cover.
 
-(* 8d. 3a + 8b + 8c: every fine-grained interleaving of the translated methods has the same outcome as
-      a run of the Notify model.
+(* 8d. 3a + 8b + 8c: every fine-grained interleaving of the HAND-WRITTEN thread trees [wallet_threads]
+      has the same outcome as a run of the Notify model.  (The statement does not mention fswallet_prog:
+      it is about the trees; what ties the trees to the translated methods is 3a + 8c + 9 — same
+      Lock / Unlock / write skeleton, both ways, up to extra reads — and, for their data, replay only.)
       What remains INFORMAL (see design/C17.md): (i) the DATA actions decorating the accesses
       (what is written, which branch follows which value read: [NotifyRefine.loop], [add_code],
       [get_code]) are transcribed by hand from the Go statements — the translator extracts only the
@@ -421,4 +424,123 @@ Proof.
   destruct Hst2 as (c & h' & p' & e' & c'' & Hn & Hs2 & ->). cbn in Hn. injection Hn as <-.
   inversion Hs2; subst. inversion H2 as [|s t s3 sch s' Hc _ _]; subst.
   specialize (Hc 0 eq_refl). discriminate.
+Qed.
+
+(* ============================================================================================== *)
+(* Answers to the statement review (design/reviews/C17.md; design/C17.md "Referee report and answers") *)
+
+(* 9. (review I3) The link between the translated source and the hand-written thread trees is now
+      TWO-WAY, and "up to accesses the source makes in addition" means up to READS only: [sub_acc w t]
+      (Conc/PathFind.v) = w is t with some read events left out; every Lock, every Unlock and every
+      WRITE of t is in w, in order (8c is thereby stronger than when it was first stated: a write to
+      listeners / addressToFileMap / addressList that the source makes and the tree does not have is a
+      mismatch).  For the structure translated from the CURRENT source, with rel = the projection onto
+      mux and the three fields:
+      forward (8c): every word of the tree's pattern is the projection, minus reads, of some complete
+      control-flow path of the method;
+      reverse (new, [exact_ok]: one deterministic event automaton per method, evaluated over ALL paths
+      by the collecting check of Conc/Monitor.v, proved sound like the atomicity check; and a proof that
+      what the automaton accepts is a pattern word with reads inserted): EVERY complete control-flow
+      path of notifyNewFiles / AddListener / GetAccounts — any branch outcomes, any number of loop
+      iterations, calls expanded, deferred items run — projects to a word of the same pattern plus
+      reads, or touches neither mux nor any of the fields apart from reads (an early return).
+      So a source that writes one of the three fields on SOME path where the hand transcription does
+      not (`w.listeners = nil` under a condition after the snapshot), drops a write, or reorders the
+      writes no longer passes: this theorem (and with an unconditional extra write already 8c) fails.
+      What stays informal is only the DATA written (see 8d (i)). *)
+Theorem C17_translated_skeleton_exact :
+  exact_ok fswallet_prog fuel = true /\
+  ((forall w, pmatch pat_nnf w ->
+      exists body tr, lookup_body fswallet_prog "notifyNewFiles" = Some body /\ Atomic.bpath fswallet_prog body tr /\
+                      sub_acc w (filter (relevant discovery_mutex discovery_locs) tr)) /\
+   (forall body tr, lookup_body fswallet_prog "notifyNewFiles" = Some body -> Atomic.bpath fswallet_prog body tr ->
+      filter (relevant discovery_mutex discovery_locs) tr = [] \/
+      exists w, pmatch pat_nnf w /\ sub_acc w (filter (relevant discovery_mutex discovery_locs) tr))) /\
+  ((exists body tr, lookup_body fswallet_prog "AddListener" = Some body /\ Atomic.bpath fswallet_prog body tr /\
+                    sub_acc add_word (filter (relevant discovery_mutex discovery_locs) tr)) /\
+   (forall body tr, lookup_body fswallet_prog "AddListener" = Some body -> Atomic.bpath fswallet_prog body tr ->
+      sub_acc [] (filter (relevant discovery_mutex discovery_locs) tr) \/
+      sub_acc add_word (filter (relevant discovery_mutex discovery_locs) tr))) /\
+  ((exists body tr, lookup_body fswallet_prog "GetAccounts" = Some body /\ Atomic.bpath fswallet_prog body tr /\
+                    sub_acc get_word (filter (relevant discovery_mutex discovery_locs) tr)) /\
+   (forall body tr, lookup_body fswallet_prog "GetAccounts" = Some body -> Atomic.bpath fswallet_prog body tr ->
+      sub_acc [] (filter (relevant discovery_mutex discovery_locs) tr) \/
+      sub_acc get_word (filter (relevant discovery_mutex discovery_locs) tr))).
+Proof. exact (conj fswallet_exact (skeleton_two_way fswallet_prog fuel fswallet_covers fswallet_exact)). Qed.
+Print Assumptions C17_translated_skeleton_exact.
+
+(* 9a. ... spelled out for the writes: the Lock / Unlock / write events (everything but reads) of every
+      complete path of notifyNewFiles are those of a pattern word, i.e. Lock (Mw | Mw Aw)* Unlock; of
+      AddListener: Lock, write listeners, Unlock; of GetAccounts: Lock, Unlock — or none at all. *)
+Theorem C17_write_skeletons :
+  (forall body tr, lookup_body fswallet_prog "notifyNewFiles" = Some body -> Atomic.bpath fswallet_prog body tr ->
+     filter (relevant discovery_mutex discovery_locs) tr = [] \/
+     exists w, pmatch pat_nnf w /\
+       filter not_read (filter (relevant discovery_mutex discovery_locs) tr) = filter not_read w) /\
+  (forall body tr, lookup_body fswallet_prog "AddListener" = Some body -> Atomic.bpath fswallet_prog body tr ->
+     filter not_read (filter (relevant discovery_mutex discovery_locs) tr) = [] \/
+     filter not_read (filter (relevant discovery_mutex discovery_locs) tr) =
+       [ELock discovery_mutex; EAcc ["listeners"%string] true; EUnlock discovery_mutex]) /\
+  (forall body tr, lookup_body fswallet_prog "GetAccounts" = Some body -> Atomic.bpath fswallet_prog body tr ->
+     filter not_read (filter (relevant discovery_mutex discovery_locs) tr) = [] \/
+     filter not_read (filter (relevant discovery_mutex discovery_locs) tr) = [ELock discovery_mutex; EUnlock discovery_mutex]).
+Proof. exact (write_skeletons fswallet_prog fuel fswallet_exact). Qed.
+Print Assumptions C17_write_skeletons.
+
+(* the reverse check is not vacuous: it accepts a one-section discovery and rejects the same body with a
+   conditional write of listeners after the snapshot, which lockset, atomicity and forward cover accept *)
+Example C17_exact_nonvacuous :
+  exact_ok (ex_prog []) 4 = true /\ covers_ok (ex_prog []) 4 = true /\ steps_atomic_ok (ex_prog []) 4 = true /\
+  exact_ok (ex_prog ex_forget) 4 = false /\ covers_ok (ex_prog ex_forget) 4 = true /\
+  steps_atomic_ok (ex_prog ex_forget) 4 = true.
+Proof. exact ex_exact_nonvacuous. Qed.
+
+(* 10. (review I2) Library objects stored in wallet fields now HAVE locations in theorem 1.  The
+      translator carries a table of library effects (harness/cmd/gen_locks, [libTypes]): what a method of
+      such an object reads / writes without synchronising internally becomes an IRead / IWrite of a
+      pseudo-location rooted at "*<field>" — ccache: Cache.Get reads ["*signerCache"; "item.expires"]
+      (plain load), Item.Extend on the item handed out writes it; a method or a type that is not in the
+      table counts as a write of the whole object; Set / Delete, regexp.Regexp, template.Template,
+      context.CancelFunc are entered as internally synchronised (TRUSTED table entries, written from the
+      libraries' sources and documentation).  So C17_race_free now also says: no two goroutines are ever
+      about to perform conflicting accesses to the signer-cache entry's expiry; the proof needs
+      signerCacheMux — with the Lock / Unlock of every mutex but mux removed from the translated bodies
+      (the regression of defect D17d) [lockset_ok] is false, and a race is reachable in the interleaving
+      semantics for that shape. *)
+Example C17_cache_item_guarded :
+  existsb (fun a => acc_eqb a (expires, true, ["signerCacheMux"%string])) (collect fswallet_prog fuel fswallet_main) &&
+  existsb (fun a => acc_eqb a (expires, false, ["signerCacheMux"%string])) (collect fswallet_prog fuel fswallet_main) = true /\
+  lockset_ok (strip_prog "mux" fswallet_prog) fuel
+    (system (strip_prog "mux" fswallet_prog) fswallet_constructor fswallet_init fswallet_api) = false.
+Proof. exact cache_item_is_guarded. Qed.
+
+Example C17_d17d_shape :
+  lockset_ok [] 3 (two_signers hit_unlocked) = false /\
+  lockset_ok [] 3 (two_signers hit_locked) = true /\
+  exists s, reach [] (init_state (two_signers hit_unlocked)) s /\ race s.
+Proof. exact d17d_shape. Qed.
+
+(* (review I6) a goroutine about to block while holding a mutex is reachable for a two-instruction
+   program and the checker rejects it; the close-shape check rejects the D17c shape (watcher creation
+   fails, done channel neither closed nor handed to a closer goroutine) and accepts the repaired one *)
+Example C17_blocks_holding_nonvacuous :
+  let main := [ILock "m"%string; IChan ChSend "c"%string] in
+  nonblocking_ok [] 3 main = false /\ exists s, reach [] (init_state main) s /\ blocks_holding s.
+Proof. exact blocks_holding_nonvacuous. Qed.
+
+Example C17_d17c_shape :
+  close_shape_ok (d17c_prog []) = false /\
+  close_shape_ok (d17c_prog [IChan ChClose "w.fsListenerDone"%string]) = true.
+Proof. exact d17c_shape. Qed.
+
+(* (review I6) convergence is not vacuous: restated from Wallet/NotifyProofs.v *)
+Example C17_converges_nonvacuous :
+  incl (files (run ex_addr_of (init [100%N]) (ex_ops1 ++ ex_creates))) ex_listing /\
+  (forall f, ~ In (CreateFile f) ex_after) /\
+  ex_ops1 ++ ex_ops2 = (ex_ops1 ++ ex_creates) ++ Refresh ex_listing :: ex_after /\
+  forall a, In a (addrList (run ex_addr_of (init [100%N]) (ex_ops1 ++ ex_ops2))) <->
+            In a (file_addrs ex_addr_of (files (run ex_addr_of (init [100%N]) (ex_ops1 ++ ex_ops2)))).
+Proof.
+  split; [exact (proj1 ex_converges_hyps)|]. split; [exact (proj2 ex_converges_hyps)|].
+  split; [reflexivity|exact ex_converges].
 Qed.
